@@ -58,7 +58,12 @@ Require V.Gen.RewriterTable_gen V.Proofs.C05_table_proofs.
    dimensions and alias map, and rejects exactly the lists the method raises on. *)
 Theorem C05_extract_table : forallb V.Proofs.C05_table_proofs.extract_row_ok V.Gen.RewriterTable_gen.extract_rows = true.
 Proof. exact V.Proofs.C05_table_proofs.extract_table_ok. Qed.
-(* ... and the WHERE splitting: what _extract_filters / _extract_compound_filters return on 30 scripted And / Or trees (regenerated in the same file) is
-   what `extract_filters` returns -- the function C05_where_split and C05_or_kept are about. *)
+(* ... and the WHERE clause: what _extract_filters / _extract_compound_filters return on 120 scripted scenarios (four FROM situations x 30 And / Or trees, regenerated in the
+   same file) is what `filters_of` returns: the clause is attributed to the single FROM table exactly when that table is a registered model (an unqualified WHERE column means
+   the model's own field, as in the SELECT list -- the repair of the former class C05-K1), then split by `extract_filters`, the function C05_where_split and C05_or_kept are
+   about; the attribution step never changes how the clause is split. *)
 Theorem C05_filters_table : forallb V.Proofs.C05_table_proofs.filter_row_ok V.Gen.RewriterTable_gen.filter_rows = true.
 Proof. exact V.Proofs.C05_table_proofs.filter_table_ok. Qed.
+Theorem C05_qualification_keeps_split : forall f w,
+  length (V.Model.Rewriter.extract_filters (V.Proofs.C05_table_proofs.wmap f w)) = length (V.Model.Rewriter.extract_filters w).
+Proof. exact V.Proofs.C05_table_proofs.extract_filters_wmap_length. Qed.
